@@ -198,6 +198,8 @@ def listing_keys(ctx) -> None:
     for ref, (listing, key) in want.items():
         fn = prog.func(ref)
         ret = next((r for r in core.walk_local(fn.node) if isinstance(r, ast.Return)), None)
+        if not (ret is not None and isinstance(ret.value, ast.Call) and ret.value.args and isinstance(ret.value.args[0], (ast.GeneratorExp, ast.ListComp))):
+            ret = next((r for r in core.walk_local(fn.normal().node) if isinstance(r, ast.Return)), None)  # an accumulating loop or a temporary
         ok = False
         if ret is not None and isinstance(ret.value, ast.Call) and core.src(ret.value.func) == 'self.Listing' and ret.value.args:
             arg = ret.value.args[0]
@@ -205,7 +207,7 @@ def listing_keys(ctx) -> None:
                 g = arg.generators[0]
                 conv = arg.elt
                 ok = isinstance(conv, ast.Call) and (core.dotted(conv.func) or '').endswith(key) and [core.src(a) for a in conv.args] == [core.src(g.target)] and f'self.registry.{listing}(' in core.src(g.iter)
-        ctx.check(ok, 'C18.keys', fn, f'{ref.split(":")[1]} converts every registry item with {key} before building the sorted, duplicate-free listing', ret or fn.node, key='list:key-conversion')
+        ctx.check(ok, 'C18.keys', fn, f'{ref.split(":")[1]} converts every registry item with {key} before building the sorted, duplicate-free listing', fn.node, key='list:key-conversion')
 
 
 IO_CALLS = {'open', 'read_bytes', 'read_text', 'isolated', 'load', 'loads', 'iterdir', 'exists', 'listdir', 'glob', 'stat', 'is_file', 'is_dir', 'import_module'}
